@@ -45,7 +45,7 @@ func c04algKinds() []c04algKind {
 		{name: "Algorithm=eq", present: true, isInt: true, equal: true, mk: func(k, d cose.Algorithm) any { return k }, wire: true},
 		{name: "Algorithm=diff", present: true, isInt: true, mk: func(k, d cose.Algorithm) any { return d }, wire: true},
 		{name: "text", present: true, mk: func(k, d cose.Algorithm) any { return "ES256" }, wire: true},
-		{name: "float", present: true, mk: func(k, d cose.Algorithm) any { return float64(k) }},
+		{name: "float", present: true, mk: func(k, d cose.Algorithm) any { return float64(k) }, wire: true},
 		{name: "nil", present: true, mk: func(k, d cose.Algorithm) any { return nil }},
 		{name: "bstr", present: true, mk: func(k, d cose.Algorithm) any { return []byte{1} }},
 	}
@@ -494,6 +494,8 @@ func c04runCell(c *Ctx, rec *mon.Recorder, cell c04cell, idx int) {
 				m.Kids = append(m.Kids, refcbor.NInt(1), refcbor.NInt(int64(v)))
 			case string:
 				m.Kids = append(m.Kids, refcbor.NInt(1), refcbor.NTstr(v))
+			case float64:
+				m.Kids = append(m.Kids, refcbor.NInt(1), refcbor.NFloat64(v))
 			}
 		}
 		return m
